@@ -228,11 +228,16 @@ pub fn schema_dts(doc: &TypeSystemDocument, config: &Config) -> Result<SourceWri
 }
 
 pub fn resolvers_dts(doc: &TypeSystemDocument, config: &Config, schema_source: &str) -> Result<SourceWriterBuffers, String> {
+    resolvers_dts_with(doc, config, schema_source, false)
+}
+
+/// `model_plugin`: print with the built-in model plugin, as the CLI does when it is configured
+pub fn resolvers_dts_with(doc: &TypeSystemDocument, config: &Config, schema_source: &str, model_plugin: bool) -> Result<SourceWriterBuffers, String> {
     let mut options = ResolverTypePrinterOptions::from_config(config);
     options.schema_source = schema_source.to_string();
     let mut writer = SourceWriter::new();
     let mut printer = ResolverTypePrinter::new(options, &mut writer);
-    let plugins: Vec<Plugin> = vec![];
+    let plugins: Vec<Plugin> = if model_plugin { vec![Plugin::new(Box::new(nitrogql_plugin::ModelPlugin {}))] } else { vec![] };
     printer.print_document(doc, &plugins).map_err(|e| format!("{e:?}"))?;
     Ok(writer.into_buffers())
 }
